@@ -1,3 +1,3 @@
 import BioCantor.Driver.Main
 import BioCantor.Driver.Bed
-def main : IO Unit := BioCantor.Driver.runModel BioCantor.Driver.Bed.ops
+def main : IO Unit := BioCantor.Driver.runModel BioCantor.Driver.Bed.opsRepaired
